@@ -34,6 +34,7 @@ type World struct {
 	Funcs  []*ssa.Function // every source function, closure and generic instance of the package
 	byName map[string]*ssa.Function
 
+	phiBusy   map[*ssa.Phi]bool
 	cg        *callgraph.Graph
 	Blocks    int
 	Instrs    int
@@ -49,6 +50,12 @@ func repoDir() string {
 
 func loadWorld(dir, tags, goarch string) (*World, error) {
 	env := append([]string{}, os.Environ()...)
+	if _, err := os.Stat("/opt/veriftools/go1.26.8/bin/go"); err == nil {
+		// /repo needs go >= 1.26; the system go is older and nothing can be fetched.
+		// (go/packages looks `go` up through this process's PATH)
+		os.Setenv("PATH", "/opt/veriftools/go1.26.8/bin:"+os.Getenv("PATH"))
+		env = append(env, "PATH="+os.Getenv("PATH"))
+	}
 	env = append(env, "GOFLAGS=-mod=mod", "GOPROXY=off", "GOSUMDB=off", "GOWORK=off", "GOTOOLCHAIN=local")
 	if goarch != "" {
 		env = append(env, "GOARCH="+goarch, "CGO_ENABLED=0")
@@ -113,6 +120,10 @@ func (w *World) collectFuncs() {
 		}
 		seen[fn] = true
 		if len(fn.Blocks) == 0 {
+			return
+		}
+		if fn.TypeParams().Len() > 0 && len(fn.TypeArgs()) == 0 {
+			// the uninstantiated body of a generic function: its instances are analysed instead
 			return
 		}
 		w.Funcs = append(w.Funcs, fn)
@@ -375,12 +386,20 @@ func (w *World) pathDepth(v ssa.Value, depth int) string {
 	case *ssa.MakeClosure:
 		return "func:" + w.name(x.Fn.(*ssa.Function))
 	case *ssa.Phi:
+		if w.phiBusy == nil {
+			w.phiBusy = map[*ssa.Phi]bool{}
+		}
+		if w.phiBusy[x] {
+			return "phi:" + x.Comment + "#" + x.Name()
+		}
+		w.phiBusy[x] = true
+		defer delete(w.phiBusy, x)
 		set := map[string]bool{}
 		for _, e := range x.Edges {
 			if e == x {
 				continue
 			}
-			set[w.pathDepth(e, d+8)] = true
+			set[w.pathDepth(e, d+4)] = true
 		}
 		var keys []string
 		for k := range set {
